@@ -155,13 +155,20 @@ class Env:
         self.target = target_buffer
         self.ctx = ctx or (target_buffer.context if target_buffer is not None else xo.context_default)
         self.other = None
+        self.foreign = False  # True: xobject-form inputs live in a buffer of ANOTHER context
         self.forms_used = set()
 
     def other_buffer(self):
         """a second buffer of the same context and of the same kind as the target
         (a context only ever hands out one kind of buffer)"""
         if self.other is None:
-            if self.target is not None:
+            if self.foreign:
+                import xobjects as xo
+
+                octx = xo.ContextCpu()
+                self.other = type(self.target)(capacity=64, context=octx) if self.target is not None else octx.new_buffer(64)
+                self.forms_used.add("xobject_inputs_from_another_context")
+            elif self.target is not None:
                 self.other = type(self.target)(capacity=64, context=self.ctx)
             else:
                 self.other = self.ctx.new_buffer(64)
